@@ -398,7 +398,10 @@ theorem cli_readAutoFile_newline (lang : Lang) (t : Str) :
 
 theorem cli_main_auto_reads_back : MainAutoReadsBackStatement := by
   intro lang results text hok hp
-  unfold printText at hp
+  have hp' : (match toStringLines Fmt.auto.fn (Fmt.auto == Fmt.conll) (results.map scored) with
+      | .error e => Except.error e
+      | .ok s => Except.ok (s ++ [10])) = Except.ok text := hp
+  have hp := hp'
   have hf : (Fmt.auto == Fmt.conll) = false := by decide
   rw [hf] at hp
   cases ht : toStringLines Fmt.auto.fn false (results.map scored) with
